@@ -21,7 +21,8 @@ Open(h) ==
      THEN /\ res' = [out |-> "refused", by |-> lock] /\ UNCHANGED <<lock, alive>>
      ELSE /\ lock' = h /\ alive' = alive \cup {h} /\ res' = [out |-> "opened", by |-> 0]
 
-(* clean shutdown releases the lock *)
+(* clean shutdown releases the lock - as its last act: while the holder still flushes its caches and indexes to disk (the
+   steps CloseBegin .. CloseEnd of MC_LockClose) it is alive and must still own the lock *)
 Close(h) == h \in alive /\ alive' = alive \ {h} /\ lock' = (IF lock = h THEN 0 ELSE lock) /\ res' = [out |-> "closed", by |-> 0]
 
 (* a killed holder leaves its lock behind *)
